@@ -1252,3 +1252,69 @@ func c02r10(rc *core.RC) {
 		rc.Unknown("decoder.mapDecoder/element-decodes", token.NoPos, "found %d key/value decode calls in mapDecoder.Decode and DecodeStream (confirmed: 4)", n)
 	}
 }
+
+// ---- C02.R10b interfaces without methods are told apart by their method count ----
+
+// An interface destination with methods can only take a value through the Unmarshaler it already holds; a
+// destination of a method-less interface type takes any document, like interface{}. There are many method-less
+// interface types (`type Any interface{}` is a type of its own): the interface decoder has to ask for the number of
+// methods, not compare the type with interface{}.
+func c02r11(rc *core.RC) {
+	p := rc.P
+	n := 0
+	for _, name := range []string{"interfaceDecoder.Decode", "interfaceDecoder.DecodeStream"} {
+		fd := p.Func("decoder", name)
+		key := "decoder." + name + "/method-less-interfaces-by-method-count"
+		if fd == nil || fd.Body == nil {
+			rc.Unknown(key, token.NoPos, "function not found")
+			continue
+		}
+		info := p.Info(fd)
+		rc.Touch(p.FuncName(fd))
+		n++
+		// the branch that hands the document to a held Unmarshaler
+		byCount, byIdentity := false, ""
+		ast.Inspect(fd.Body, func(m ast.Node) bool {
+			ifs, ok := m.(*ast.IfStmt)
+			if !ok {
+				return true
+			}
+			callsUnmarshaler := false
+			ast.Inspect(ifs.Body, func(k ast.Node) bool {
+				if c, isCall := k.(*ast.CallExpr); isCall && strings.Contains(core.CalleeName(info, c), "nmarshaler") {
+					callsUnmarshaler = true
+				}
+				return true
+			})
+			if !callsUnmarshaler {
+				return true
+			}
+			for _, cj := range conjuncts(ifs.Cond) {
+				be, isBin := core.Unparen(cj).(*ast.BinaryExpr)
+				if !isBin {
+					continue
+				}
+				if c, isCall := core.Unparen(be.X).(*ast.CallExpr); isCall {
+					if sel, isSel := core.Unparen(c.Fun).(*ast.SelectorExpr); isSel && sel.Sel.Name == "NumMethod" {
+						byCount = true
+					}
+				}
+				if (be.Op == token.NEQ || be.Op == token.EQL) && (strings.Contains(core.Src(p.Fset, be.Y), "emptyInterfaceType") || strings.Contains(core.Src(p.Fset, be.X), "emptyInterfaceType")) {
+					byIdentity = core.Src(p.Fset, cj)
+				}
+			}
+			return true
+		})
+		switch {
+		case byCount:
+			rc.OK(key, fd.Pos(), "the branch for interfaces with methods is taken on NumMethod() > 0")
+		case byIdentity != "":
+			rc.Bad(key, fd.Pos(), "the branch for interfaces with methods is taken on `%s`: a named interface type without methods (type Any interface{}) is not interface{} and is refused every document, where encoding/json decodes into it as into interface{}", byIdentity)
+		default:
+			rc.Unknown(key, fd.Pos(), "no test of the destination's method count found in front of the Unmarshaler branch")
+		}
+	}
+	if n < 2 {
+		rc.Unknown("decoder/interface-decoder", token.NoPos, "found %d of the two interface decoder methods", n)
+	}
+}
